@@ -612,6 +612,116 @@ m = g(r.sub, p.sub) && g2(r.obj, p.obj) && r.act == p.act
     chk.extra.setdefault("strata", {})["role_manager_owned_links"] = n
 
 
+def stratum_names_evals_domains(chk):
+    """three corners of 'the expression is evaluated as written' that need their own inputs (implementation-level SPEC):
+      (a) every documented built-in NAME in a matcher denotes its documented function (rows chosen so that each name is
+          told apart from every other built-in);
+      (b) several eval() calls in one matcher, in any order, with stored sub-expressions much shorter / longer than the
+          eval(...) token they replace: each eval(p.x) is the rule's field x, evaluated as an expression;
+      (c) g(r.sub, p.sub, <dom>) where <dom> evaluates to a non-string (a numeric tenant id read from a request object):
+          the role function is asked about str(<dom>)."""
+    import casbin
+    base = """[request_definition]
+r = sub, obj, act
+[policy_definition]
+p = %s
+[policy_effect]
+e = some(where (p.eft == allow))
+[matchers]
+m = %s
+"""
+    n = 0
+    # ---- (a)
+    rows = [("keyMatch", "/foo/bar", "/foo/*", True), ("keyMatch", "/foo/bar", "/foo/:id", False), ("keyMatch", "/foo", "/foo/*", False),
+            ("keyMatch2", "/foo/bar", "/foo/:id", True), ("keyMatch2", "/foo/bar", "/foo/{id}", False), ("keyMatch2", "/foo/bar/baz", "/foo/:id", False),
+            ("keyMatch3", "/foo/bar", "/foo/{id}", True), ("keyMatch3", "/foo/bar", "/foo/:id", False),
+            ("keyMatch4", "/parent/1/child/1", "/parent/{id}/child/{id}", True), ("keyMatch4", "/parent/1/child/2", "/parent/{id}/child/{id}", False),
+            ("keyMatch4", "/res/list?page=2", "/res/list", False),
+            ("keyMatch5", "/res/list?page=2", "/res/list", True), ("keyMatch5", "/parent/1/child/2", "/parent/{id}/child/{id}", True),
+            ("keyMatch5", "/res/other", "/res/list", False),
+            ("regexMatch", "/topic/42", "/topic/[0-9]+", True), ("regexMatch", "/topic/x", "/topic/[0-9]+", False), ("regexMatch", "/fooX", "/foo.$", True),
+            ("ipMatch", "10.1.2.3", "10.0.0.0/8", True), ("ipMatch", "11.1.2.3", "10.0.0.0/8", False),
+            ("globMatch", "/a/b", "/a/*", True), ("globMatch", "/a/b/c", "/a/*", False), ("globMatch", "/a/b", "/a/?", True)]
+    for name, key, pat, want in rows:
+        e = casbin.Enforcer(casbin.Enforcer.new_model(text=base % ("sub, obj, act", f"{name}(r.obj, p.obj)")))
+        e.add_policy("any", pat, "any")
+        try:
+            got = bool(e.enforce("x", key, "y"))
+        except Exception as ex:  # noqa
+            got = "raise " + type(ex).__name__
+        n += 1
+        chk.count(("builtin-name", name, key, pat))
+        if got != want:
+            chk.spec_fail(dict(stratum="names-evals-domains", part="built-in name", matcher=f"{name}(r.obj, p.obj)", rule_obj=pat, request_obj=key),
+                          got, want, "a documented built-in name in the matcher does not denote its documented function")
+            chk.extra.setdefault("strata", {})["names_evals_domains"] = n
+            return
+    # ---- (b)
+    texts = [("True", lambda s_, o_: True), ("1 == 2", lambda s_, o_: False), ("r.sub == 'alice'", lambda s_, o_: s_ == "alice"),
+             ("r.obj == 'data1' || r.obj == 'data2' || r.obj == 'data3'", lambda s_, o_: o_ in ("data1", "data2", "data3")),
+             ("!(r.sub == 'bob') && r.obj != 'data9'", lambda s_, o_: s_ != "bob" and o_ != "data9"), ("r.obj == 'data1'", lambda s_, o_: o_ == "data1")]
+    import itertools
+    for order in (("a", "b"), ("b", "a"), ("a", "b", "c"), ("c", "a", "b"), ("b", "c", "a")):
+        cols = ["a", "b", "c"][:len(order)] if len(order) == 2 else ["a", "b", "c"]
+        matcher = " && ".join(f"eval(p.{c}_rule)" for c in order) + " && r.act == p.act"
+        pdef = ", ".join(f"{c}_rule" for c in cols) + ", act"
+        for combo in itertools.product(range(len(texts)), repeat=len(cols)):
+            if sum(combo) % 3 != 0 and len(cols) == 3:
+                continue                                   # a third of the triples
+            e = casbin.Enforcer(casbin.Enforcer.new_model(text=base % (pdef, matcher)))
+            e.add_policy(*([texts[i][0] for i in combo] + ["read"]))
+            for s_, o_ in (("alice", "data1"), ("bob", "data1"), ("alice", "data9"), ("carol", "data2")):
+                want = all(texts[i][1](s_, o_) for i in combo)
+                try:
+                    got = bool(e.enforce(s_, o_, "read"))
+                except Exception as ex:  # noqa
+                    got = "raise " + type(ex).__name__
+                n += 1
+                chk.count(("multi-eval", order, combo, s_, o_))
+                if got != want:
+                    chk.spec_fail(dict(stratum="names-evals-domains", part="several eval() calls", policy_definition=pdef, matcher=matcher,
+                                       rule=[texts[i][0] for i in combo] + ["read"], request=[s_, o_, "read"]), got, want,
+                                  "a matcher with several eval() calls is not the conjunction of the rule's stored sub-expressions")
+                    chk.extra.setdefault("strata", {})["names_evals_domains"] = n
+                    return
+    # ---- (c)
+    class Tenant:
+        def __init__(self, i):
+            self.id = i
+
+    class Req:
+        def __init__(self, name, tenant):
+            self.name, self.tenant = name, tenant
+    text = """[request_definition]
+r = sub, obj, act
+[policy_definition]
+p = sub, dom, obj, act
+[role_definition]
+g = _, _, _
+[policy_effect]
+e = some(where (p.eft == allow))
+[matchers]
+m = g(r.sub.name, p.sub, r.sub.tenant.id) && p.dom == "7" && r.obj == p.obj && r.act == p.act
+"""
+    e = casbin.Enforcer(casbin.Enforcer.new_model(text=text))
+    e.add_policy("admin", "7", "data1", "read")
+    e.add_grouping_policy("carol", "admin", "7")
+    e.add_grouping_policy("dave", "admin", "8")
+    for who, tid, want in (("carol", 7, True), ("carol", "7", True), ("carol", 8, False), ("dave", 7, False), ("admin", 7, True), ("carol", 7.0, False)):
+        try:
+            got = bool(e.enforce(Req(who, Tenant(tid)), "data1", "read"))
+        except Exception as ex:  # noqa
+            got = "raise " + type(ex).__name__
+        n += 1
+        chk.count(("non-string-domain", who, repr(tid)))
+        if got != want:
+            chk.spec_fail(dict(stratum="names-evals-domains", part="non-string domain handed to g()", matcher="g(r.sub.name, p.sub, r.sub.tenant.id) && ...",
+                               grouping=e.get_grouping_policy(), request_subject=dict(name=who, tenant_id=repr(tid))), got, want,
+                          "g(a, b, dom) with a non-string dom is not has_link(a, b, str(dom))")
+            break
+    chk.extra.setdefault("strata", {})["names_evals_domains"] = n
+
+
 def observe_case(c):
     sh, ast, subs, reqs, text = case_parts(c)
     obs, stored = run_real(text, sh, c["rules"], c["grouping"], c["user_fns"], reqs, c.get("etype"))
@@ -839,6 +949,7 @@ def run(chk, n_asts, maxdepth, vm_n, nonconst_n):
     from .c05 import stratum_confusable_names
     stratum_confusable_names(chk, 40)
     stratum_role_manager_owned_links(chk)
+    stratum_names_evals_domains(chk)
     # the hypotheses of C02_pipeline_tokens(_ast) hold on the generated cases (wf_tokens, admissible), and
     # Gallina's render agrees with the harness renderer
     hyp = [c for c in tok_cases if c.get("gaps")]
@@ -921,9 +1032,9 @@ def replay(chk):
             sys.exit(1)
         print("replay passes: implementation agrees with the spec in every world of this sequence")
         sys.exit(0)
-    if c.get("stratum") == "role-manager-owned-links":
+    if c.get("stratum") in ("role-manager-owned-links", "names-evals-domains"):
         chk.spec_failures = []
-        stratum_role_manager_owned_links(chk)
+        (stratum_role_manager_owned_links if c["stratum"] == "role-manager-owned-links" else stratum_names_evals_domains)(chk)
         if chk.spec_failures:
             print("replay:", json.dumps(chk.spec_failures[0])[:700])
             print(f"VIOLATION property={chk.prop} replay={chk.replay_file}")
